@@ -64,7 +64,7 @@ def s_case(draw, tier):
     n = draw(st.integers(3, 8 if tier == "quick" else 14))
     ops = []
     for _ in range(n):
-        kind = draw(st.sampled_from(["set", "set", "eval", "eval", "bath", "eval-bath", "compute", "compute", "make-pt", "make-pt", "use-pt", "use-pt", "use-pt"]))
+        kind = draw(st.sampled_from(["set", "set", "eval", "eval", "bath", "eval-bath", "compute", "compute", "make-pt", "make-pt", "use-pt", "use-pt", "use-pt", "alt-system"]))
         c = draw(st.integers(0, 1))
         if kind == "set":
             attr = draw(st.sampled_from(ATTRS_PL if c == 0 else ATTRS_CU))
@@ -77,6 +77,9 @@ def s_case(draw, tier):
         elif kind == "eval-bath":
             ops.append({"op": "eval-bath", "b": draw(st.integers(0, 3)),
                         "what": draw(st.sampled_from(["correlation", "spectral_density", "2d-square"])), "x": draw(st.sampled_from([0.1, 0.3]))})
+        elif kind == "alt-system":
+            ops.append({"op": "alt-system", "variant": draw(st.sampled_from(["H", "-H", "H^T", "PHP", "2H"])),
+                        "dt": draw(st.sampled_from([0.1, 0.1, 0.2]))})
         elif kind == "make-pt":
             ops.append({"op": "make-pt", "c": c, "rot": draw(st.booleans())})
         elif kind == "use-pt":
@@ -215,6 +218,10 @@ def run_case(case):
         kind = op["op"]
         if kind == "set":
             c = op["c"]
+            # the object has been used before the change (warms every cache an implementation may keep)
+            for what in ("correlation", "eta", "2d-triangle", "2d-square", "2d-rect"):
+                for x in (0.1, 0.3):
+                    _evaluate(corrs[c], what, x)
             v = VALUES[op["attr"]][op["v"]]
             if op["attr"] == "j_function":
                 setattr(corrs[c], "j_function", np.vectorize(JFUNS[v]))
@@ -223,6 +230,17 @@ def run_case(case):
             params[c] = dict(params[c], **{op["attr"]: v})
             used[c] = True
             out.label("set:" + op["attr"])
+            # ... and is used again right after the change: every method must answer with the current values
+            fresh = _fresh(params[c])
+            for what in ("correlation", "spectral_density", "eta", "2d-triangle", "2d-square", "2d-rect"):
+                for x in (0.1, 0.3):
+                    got = _evaluate(corrs[c], what, x)
+                    want = _evaluate(fresh, what, x)
+                    if not abs(got - want) <= 1e-12 * max(1.0, abs(want)):
+                        out.fail(f"stale-or-inconsistent:{what}:{params[c]['type']}:after-set-{op['attr']}",
+                                 f"op {i}: after {op['attr']}={v}: {what}({x}) = {got:.8g}, fresh object gives {want:.8g}")
+                        return out
+            reuse = True
         elif kind == "eval":
             c = op["c"]
             if params[c]["temperature"] == 0 and False:
@@ -251,6 +269,24 @@ def run_case(case):
             if not abs(got - want) <= 1e-12 * max(1.0, abs(want)):
                 out.fail(f"bath-follows-later-changes:{op['what']}:{snap_p['type']}",
                          f"op {i}: bath.correlations.{op['what']}({op['x']}) = {got:.8g}, value at construction {want:.8g}")
+                return out
+        elif kind == "alt-system":
+            # other system objects with the same shape / norm / |entries| used in the same process: results must not
+            # depend on what was computed before (reference: explicit unitary evolution, no library code)
+            from scipy.linalg import expm
+            P = np.array([[0, 1], [1, 0]], dtype=complex)
+            Hv = {"H": H, "-H": -H, "H^T": H.T.copy(), "PHP": P @ H @ P, "2H": 2 * H}[op["variant"]]
+            dyn = oqupy.compute_dynamics(oqupy.System(Hv), rho0, dt=op["dt"], num_steps=3, progress_type="silent")
+            U = expm(-1j * Hv * op["dt"])
+            want = [rho0]
+            for _ in range(3):
+                want.append(U @ want[-1] @ U.conj().T)
+            reuse = True
+            out.label("alt-system:" + op["variant"])
+            if not np.abs(np.array(dyn.states) - np.array(want)).max() <= 1e-10:
+                out.fail(f"depends-on-earlier-use:alt-system:{op['variant']}",
+                         f"op {i}: closed-system dynamics of System({op['variant']}) deviate by "
+                         f"{np.abs(np.array(dyn.states) - np.array(want)).max():.3e} from the explicit evolution")
                 return out
         elif kind == "make-pt":
             c = op["c"]
